@@ -20,6 +20,8 @@ from ..gen.mdgrids import build_mdg, mdg_labels, mdg_spec
 
 ID = "C39"
 RULE = (
+    "(One case in six is a history on the same grid objects: conditions are built and checked on the intact Cartesian host and "
+    "fracture grids, meshing.subdomains_to_mdg then splits their faces in place, and conditions are built and checked again.) "
     "Hypothesis draws a grid (every family of gen/grids.py in 1-3 d: Cartesian, tensor, structured simplex, "
     "mixed-shape polygonal 'poly' and its extrusion 'polyx') or a fractured md-grid of gen/mdgrids.py (0-3 "
     "axis-aligned fractures, X/T/L intersections; every subdomain is used: split host with fracture faces, "
@@ -54,7 +56,7 @@ ASSUMPTIONS = [
 ]
 REQUIRED = {
     "cls-scalar": 0.2, "cls-vector": 0.15, "form-index": 0.15, "form-mask": 0.15, "form-none": 0.03,
-    "src-grid": 0.2, "src-mdg": 0.15, "has-fracture-faces": 0.08, "has-tip-faces": 0.05,
+    "src-grid": 0.2, "src-mdg": 0.12, "src-split": 0.06, "split-faces-after-first-conditions": 0.04, "has-fracture-faces": 0.08, "has-tip-faces": 0.05,
     "assigned-fracture-face": 0.03, "cond-str": 0.1, "cond-list": 0.1, "label-dir": 0.2, "label-neu": 0.1,
     "label-rob": 0.1, "who-all": 0.05, "who-some": 0.1, "reassign": 0.03, "i2d": 0.015, "copy-history": 0.03, "bad-interior": 0.01,
     "dim1": 0.03, "dim2": 0.1, "dim3": 0.1, "kind-poly": 0.02, "kind-polyx": 0.02, "kind-tri": 0.02,
@@ -112,9 +114,17 @@ def _bc(draw, src):
 
 @st.composite
 def _spec(draw, tier):
-    src = draw(st.sampled_from(["grid", "grid", "mdg"]))
+    src = draw(st.sampled_from(["grid", "grid", "grid", "mdg", "mdg", "split"]))
     s = {"src": src}
-    if src == "grid":
+    if src == "split":
+        # history on the SAME grid objects: conditions built on the intact Cartesian host / fracture grids, then the
+        # grids are assembled into an md-grid (faces split in place, new internal boundaries), then conditions again
+        from ..gen.grids_extra import frac_spec
+
+        s["frac"] = draw(frac_spec())
+        s["bcs_before"] = draw(st.lists(_bc("mdg"), min_size=1, max_size=3))
+        s["bcs"] = draw(st.lists(_bc("mdg"), min_size=2, max_size=5))
+    elif src == "grid":
         # geometry is irrelevant for the flags: no perturbation / embedding, topology only
         s["grid"] = draw(grid_spec(perturb=False, rigid=False, affine=False,
                                    max_n=4 if tier == "quick" else 6, max_n3=3))
@@ -441,6 +451,26 @@ def _copy_history(b, obj, g, cls, B, rows, nf, what, labels):
 def check(spec):
     import porepy as pp
 
+    if spec["src"] == "split":
+        from porepy.fracs import structured
+
+        from ..gen.grids_extra import fracture_arrays
+
+        fs = spec["frac"]
+        make = structured._cart_grid_2d if fs["dim"] == 2 else structured._cart_grid_3d
+        grids = make(fracture_arrays(fs), np.array(fs["nx"]), physdims=np.array(fs["phys"], dtype=float))
+        objs = [g for lst in grids for g in lst]
+        labels = ["src-split"]
+        nontrivial = False
+        for b in spec["bcs_before"]:
+            _check_bc(pp, b, objs, labels)
+        nf0 = [g.num_faces for g in objs]
+        pp.meshing.subdomains_to_mdg(grids)  # splits faces and nodes of the very same objects
+        if any(g.num_faces != n for g, n in zip(objs, nf0)):
+            labels.append("split-faces-after-first-conditions")
+        for b in spec["bcs"]:
+            nontrivial = _check_bc(pp, b, objs, labels) or nontrivial
+        return {"labels": sorted(set(labels)), "nontrivial": bool(nontrivial)}
     sds, mdg = _grids(spec)
     labels = [f"src-{spec['src']}"]
     if spec["src"] == "grid":
